@@ -196,7 +196,7 @@ impl Prog {
     }
     pub fn text(&self) -> String {
         match self {
-            Prog::Stmts(xs) => xs.iter().map(|e| e.render()).collect::<Vec<_>>().join("; "),
+            Prog::Stmts(xs) => xs.iter().map(|e| e.render()).collect::<Vec<_>>().join(" ; "),
             Prog::Chain(operands, ops) => {
                 let mut s = operands[0].operand();
                 for (i, op) in ops.iter().enumerate() {
